@@ -43,7 +43,7 @@ TruthsSN(n) == {[lang |-> lg, title |-> tc[1], copyright |-> tc[2], fr |-> 0, tr
              styles |-> [i \in 1..n |-> [id |-> i, parent |-> par[i], attrs |-> IF i = 2 THEN A2 ELSE A1]],
              regions |-> rg,
              cues |-> <<Cue(1000, 2000, cs, IF rg = <<>> THEN 0 ELSE 1, ca, <<<<R(1, rs, NoA), R(2, 0, A1)>>>>)>>] :
-              par \in Forests(n), lg \in {0, 2, 6}, tc \in {<<0, 0>>, <<1, 1>>, <<1, 0>>, <<0, 1>>},   \* title and copyright vary independently
+              par \in Forests(n), lg \in {0, 2}, tc \in {<<0, 0>>, <<1, 1>>, <<1, 0>>, <<0, 1>>},   \* title and copyright vary independently
               rg \in {<<>>, <<[id |-> 1, style |-> 1, attrs |-> A1]>>, <<[id |-> 1, style |-> 0, attrs |-> NoA], [id |-> 2, style |-> 1, attrs |-> A2]>>},
               cs \in {0, 1}, rs \in {0, 1}, ca \in {NoA, A2}}
 TruthsS == UNION {TruthsSN(n) : n \in 1..3}
